@@ -22,6 +22,7 @@ type TreeEntry struct {
 	Data    []byte
 	Hole    int
 	OpenErr bool
+	DirSize int
 	Link    string // symlink target, or hard-link source path (relative to the tree root)
 	Maj     uint32
 	Min     uint32
@@ -44,6 +45,9 @@ func treeFromJSON(xs []interface{}) []TreeEntry {
 		// "openerr": (in-memory sources) a regular entry of size 0 whose Open fails with ENXIO - what a unix socket in a real tree is
 		// to the sender (announced as a regular file, cannot be opened)
 		e.OpenErr = m.boolean("openerr")
+		if e.Type == "dir" {
+			e.DirSize = m.num("size")
+		}
 		for _, kv := range m.arr("x") {
 			a := kv.([]interface{})
 			e.Xattr = append(e.Xattr, [2]string{unhex(a[0].(string)), unhex(a[1].(string))})
@@ -199,7 +203,8 @@ func snapshot(root string, withContent bool) ([]SnapEntry, error) {
 	var rec func(rel string) error
 	rec = func(rel string) error {
 		dir := filepath.Join(root, rel)
-		f, err := os.Open(dir)
+		// never open anything but a directory (what is snapshotted may have been replaced by a FIFO, whose open would block)
+		f, err := os.OpenFile(dir, os.O_RDONLY|syscall.O_DIRECTORY|syscall.O_NONBLOCK|syscall.O_NOFOLLOW, 0)
 		if err != nil {
 			return err
 		}
